@@ -92,7 +92,7 @@ func mkHandlers(hs []H, trace *[]string) []fiber.Handler {
 	return out
 }
 
-func install(r registrar, regs []Reg, trace *[]string) {
+func install(r registrar, regs []Reg, trace *[]string, cfg fiber.Config) {
 	for _, g := range regs {
 		hs := mkHandlers(g.H, trace)
 		switch g.Kind {
@@ -137,7 +137,11 @@ func install(r registrar, regs []Reg, trace *[]string) {
 			r.Use(args...)
 		case "group":
 			grp := r.Group(g.Path, hs...)
-			install(grp, g.Items, trace)
+			install(grp, g.Items, trace, cfg)
+		case "mount":
+			sub := fiber.New(cfg)
+			install(sub, g.Items, trace, cfg)
+			r.Use(g.Path, sub)
 		case "route":
 			rt := r.Route(g.Path)
 			for _, it := range g.Items {
@@ -196,6 +200,21 @@ func flatten(prefix string, inGroup bool, regs []Reg, all []string, out *[]flat)
 				*out = append(*out, flat{use: true, path: gp, hs: g.H})
 			}
 			flatten(gp, true, g.Items, all, out)
+		case "mount":
+			mp := strings.TrimRight(j(g.Path), "/")
+			if mp == "" {
+				mp = "/"
+			}
+			var sub []flat
+			flatten("", false, g.Items, all, &sub)
+			for _, f := range sub {
+				p := f.path
+				if p == "" {
+					p = "/"
+				}
+				f.path = groupPath(mp, p)
+				*out = append(*out, f)
+			}
 		case "route":
 			for _, it := range g.Items {
 				*out = append(*out, flat{methods: it.Methods, path: j(g.Path), hs: it.H})
@@ -364,7 +383,7 @@ type observed struct {
 func run(c Case) observed {
 	var trace []string
 	app := newApp(c)
-	install(app, c.Regs, &trace)
+	install(app, c.Regs, &trace, c.cfg())
 	resp := vk.Do(app, c.Method, c.Path)
 	return observed{trace, resp.Response.StatusCode(), string(resp.Response.Header.Peek("Allow"))}
 }
@@ -465,6 +484,7 @@ var groupPrefixes = []string{"/g", "/ab", "/abc", "/a", "/:t", "/abc/"}
 var groupItemPaths = []string{"", "/", "/x", "/:p", "/*", "/ab", "/x/"}
 
 type gen struct {
+	mounted bool
 	t       *rapid.T
 	hid     int
 	methods []string
@@ -500,7 +520,7 @@ func (g *gen) handlers(maxN int, allowOverride bool) []H {
 
 func (g *gen) reg(depth int, prev []Reg, pathPool []string) []Reg {
 	t := g.t
-	kind := rapid.SampledFrom([]string{"add", "add", "add", "add", "all", "use", "use", "usemulti", "group", "route", "burst"}).Draw(t, "kind")
+	kind := rapid.SampledFrom([]string{"add", "add", "add", "add", "all", "use", "use", "usemulti", "group", "route", "burst", "mount"}).Draw(t, "kind")
 	pickPath := func() string {
 		if len(prev) > 0 && rapid.IntRange(0, 3).Draw(t, "dup") == 0 {
 			p := prev[rapid.IntRange(0, len(prev)-1).Draw(t, "dupOf")]
@@ -536,6 +556,27 @@ func (g *gen) reg(depth int, prev []Reg, pathPool []string) []Reg {
 		n := rapid.IntRange(1, 3).Draw(t, "gitems")
 		for i := 0; i < n; i++ {
 			r.Items = append(r.Items, g.reg(depth+1, r.Items, groupItemPaths)...)
+		}
+		return []Reg{r}
+	case "mount":
+		if depth >= 1 || g.mounted {
+			return []Reg{{Kind: "add", Methods: []string{g.methods[0]}, Path: pickPath(), H: g.handlers(2, false)}}
+		}
+		g.mounted = true // one mount per table: two mounts on one prefix are finding C04-b territory
+		r := Reg{Kind: "mount", Path: rapid.SampledFrom([]string{"/m", "/ab", "/abc", "/a", "/"}).Draw(t, "mprefix")}
+		n := rapid.IntRange(1, 4).Draw(t, "mitems")
+		for i := 0; i < n; i++ {
+			k := rapid.SampledFrom([]string{"add", "add", "use", "all"}).Draw(t, "mkind")
+			p := rapid.SampledFrom([]string{"/", "/x", "/:p", "/*", "/ab", "/abc", "/abc/x", "/x/"}).Draw(t, "mpath")
+			switch k {
+			case "add":
+				ms := rapid.SliceOfNDistinct(rapid.SampledFrom(g.methods), 1, 2, rapid.ID[string]).Draw(t, "mmethods")
+				r.Items = append(r.Items, Reg{Kind: "add", Methods: ms, Path: p, H: g.handlers(3, true)})
+			case "use":
+				r.Items = append(r.Items, Reg{Kind: "use", Path: p, H: g.handlers(2, true)})
+			default:
+				r.Items = append(r.Items, Reg{Kind: "all", Path: p, H: g.handlers(2, true)})
+			}
 		}
 		return []Reg{r}
 	case "route":
@@ -618,6 +659,7 @@ func sanitize(c *Case) (dropped int) {
 		count[key{f.use, norm(f.path)}]++
 	}
 	var walk func(regs []Reg, prefix string, inGroup bool)
+	inMount := false
 	walk = func(regs []Reg, prefix string, inGroup bool) {
 		for i := range regs {
 			g := &regs[i]
@@ -625,11 +667,23 @@ func sanitize(c *Case) (dropped int) {
 			if g.Path == "\x00none" {
 				full = ""
 			}
+			if inMount && full == "" {
+				full = "/"
+			}
 			if inGroup {
 				full = groupPath(prefix, full)
 			}
 			if g.Kind == "group" {
 				walk(g.Items, full, true)
+			}
+			if g.Kind == "mount" {
+				mp := strings.TrimRight(full, "/")
+				if mp == "" {
+					mp = "/"
+				}
+				inMount = true
+				walk(g.Items, mp, true)
+				inMount = false
 			}
 			for j := range g.H {
 				h := &g.H[j]
